@@ -1,4 +1,5 @@
 import Wasp.Model.Broker
+import Wasp.Proofs.BrokerA
 /-!
 # C13 — will messages are published exactly when a session dies without DISCONNECT
 
@@ -19,7 +20,7 @@ DISCONNECT, connection loss, keep-alive expiry, protocol error / decoder failure
   inside the session's mount point.
 -/
 namespace Wasp.Broker
-open Wasp.Dist Wasp.Topic
+open Wasp.Dist Wasp.Topic Wasp.Broker.AgentA
 
 /-- the state changes of shutdownSession up to (not including) the will: registry, connection,
     subscriptions, session record -/
@@ -41,35 +42,86 @@ theorem C13_shutdown_eq (w : World) (i : Nat) (sid : String) (s : Sess) (hs : (w
        else match s.will with
          | none => r.1
          | some lwt => r.1.publishJob i ⟨prefixMountPoint s.mount lwt.topic, lwt.payload, lwt.qos, lwt.retain, false⟩ id) := by
-  sorry
+  subst hid
+  unfold World.shutdownSession teardown
+  simp only [hs]
+  generalize List.foldl _ _ s.topics = W
+  cases sessByClientID (W.node i).dist s.mount s.client with
+  | nil => simp; rfl
+  | cons md rest =>
+    simp only []
+    by_cases h : md.id = s.id
+    · simp [h] <;> rfl
+    · simp [h]
+
+/-- everything `teardown` does after removing the session from the registry leaves `F` alone -/
+theorem C13_aux_teardown_frame {α : Type} {F : Node → α} (hF : NFrame F) (w : World) (i : Nat) (s : Sess) :
+    WFrame F (regFiltered w i s.id) (teardown w i s).1 := by
+  unfold teardown regFiltered
+  simp only []
+  generalize hW0 : w.setNode i { w.node i with reg := (w.node i).reg.filter (fun x => x.id != s.id) } = W0
+  have hW : WFrame F W0 (s.topics.foldl (fun w t => w.subDelete i s.id t)
+      { W0.emit s.conn .closed with conns := (W0.emit s.conn .closed).conns.filter (fun (c : String × Nat) => c.1 != s.conn) }) :=
+    WFrame.after (foldl_frame _ (fun w t => subDelete_frame hF w i s.id t) _ _) (WFrame.of_nodes F rfl)
+  split
+  · exact hW
+  · split
+    · exact hW
+    · exact WFrame.after (sessDelete_frame hF _ _ _) hW
 
 /-- tearing down never appends to a message log -/
 theorem C13_teardown_no_append (w : World) (i : Nat) (s : Sess) (j : Nat) :
-    ((teardown w i s).1.node j).log = (w.node j).log := by
-  sorry
+    ((teardown w i s).1.node j).log = (w.node j).log :=
+  ((regFiltered_log w i s.id).trans (C13_aux_teardown_frame NFrame.log w i s)).2 j
 
 /-- after DISCONNECT no will is published: no log of any node changes -/
 theorem C13_clean_no_will (w : World) (i : Nat) (sid : String) (s : Sess) (hs : (w.node i).sess sid = some s)
     (hid : s.id = sid) (hd : s.disconnected = true) (j : Nat) :
     ((w.shutdownSession i sid).node j).log = (w.node j).log := by
-  sorry
+  rw [C13_shutdown_eq w i sid s hs hid]
+  simp only [hd, if_true, ite_self]
+  exact C13_teardown_no_append w i s j
 
 /-- a session that is not registered (already ended) ends as a no-op: nothing can be published twice -/
 theorem C13_once (w : World) (i : Nat) (sid : String) (hs : (w.node i).sess sid = none) :
     w.shutdownSession i sid = w := by
-  sorry
+  unfold World.shutdownSession
+  simp only [hs]
 
 /-- after the first shutdown the session is no longer registered -/
 theorem C13_unregistered_after (w : World) (i : Nat) (sid : String) (hi : i < w.nodes.length) :
     ((w.shutdownSession i sid).node i).sess sid = none := by
-  sorry
+  cases hs : (w.node i).sess sid with
+  | none => rw [C13_once w i sid hs]; exact hs
+  | some s =>
+    have hid : s.id = sid := sess_some_id hs
+    have hT := C13_aux_teardown_frame NFrame.ids w i s
+    have key : ∀ X : World, WFrame (fun n : Node => n.reg.map (·.id)) (regFiltered w i s.id) X →
+        (X.node i).sess sid = none := by
+      intro X hX
+      have h1 := hX.2 i
+      have h2 := regFiltered_sess w i s.id hi
+      rw [sess_eq_none_iff] at h2 ⊢
+      simp only [] at h1
+      rw [h1, ← hid]
+      exact h2
+    rw [C13_shutdown_eq w i sid s hs hid]
+    apply key
+    simp only []
+    split
+    · exact hT
+    · split
+      · exact hT
+      · split
+        · exact hT
+        · exact WFrame.after (publishJob_frame NFrame.ids appendLog_ids _ _ _) hT
 
 /-- node failure: what a survivor appends to its own log -/
 theorem C13_node_failure_log (w : World) (i : Nat) (peer : Nat) (hi : i < w.nodes.length)
     (hok : (w.node i).logFailAll = false ∧ (w.node i).logFailAt = []) :
     ((w.notifyLeave i peer).node i).log = (w.node i).log ++
       (sessByPeer ((Wasp.Dist.subDeletePeer (w.node i).dist w.clock peer).1) peer).filterMap (fun s =>
-        s.lwt.map (fun lwt => (⟨s.mount ++ "/" ++ lwt.topic, lwt.payload, lwt.qos, lwt.retain, false⟩ : Pub))) := by
-  sorry
+        s.lwt.map (fun lwt => (⟨s.mount ++ "/" ++ lwt.topic, lwt.payload, lwt.qos, lwt.retain, false⟩ : Pub))) :=
+  notifyLeave_log w i peer hi hok.1 hok.2
 
 end Wasp.Broker
